@@ -204,6 +204,14 @@ func c14Table(r *rand.Rand) any {
 		}
 		rows[i] = m
 	}
+	if r.Intn(8) == 0 {
+		// a data row that repeats the heading row
+		m := map[string]any{}
+		for _, k := range cols {
+			m[k] = k
+		}
+		rows[r.Intn(nrow)] = m
+	}
 	return rows
 }
 
